@@ -63,7 +63,7 @@ CLAIMS = {
              'alphabet, the 256-entry decoder table is its exact inverse with two distinct separator codes and one invalid code '
              '(TABLES, const-evaluated by the compiler, 320 entries); every byte any writer can put into an encoder buffer is a '
              'base64 digit, "," or ";" (ALPHABET, sound over-approximation over all writers incl. helper functions and closures). '
-             'NOT decided: VLQ arithmetic, relative-field state, skip rules, the line-only encoder, round-trip equality. Added: LINE-RESET — the decoder resets the running column whenever it advances the line, the full encoder resets its column state whenever it writes a semicolon. Round 3: ENC-FIRST-MAPPED (the line-only encoder takes state from a segment\'s line only when the segment is mapped). Round 4: ENC-DEDUP (the "same original, skip" shortcut compares every per-segment state it records), ENC-OMIT (a tracked field is written as a delta or skipped only after the equality test with the state: no constant digits for an uncompared field), ENCODER-TOTAL (no arithmetic panic in the encoders). Round 6: VLQ-TERMINATED — path-sensitive replay of one loop iteration of the VLQ writer from the loop-head facts: a digit that can be the last one before the writer returns is < 32, a digit followed by another is >= 32. DECODER-WIDTH — the reader's accumulator is at least 35 bits wide and the overflow guard skips a digit only beyond position 30 (all 7 digits of a 32-bit field are kept).',
+             'NOT decided: VLQ arithmetic, relative-field state, skip rules, the line-only encoder, round-trip equality. Added: LINE-RESET — the decoder resets the running column whenever it advances the line, the full encoder resets its column state whenever it writes a semicolon. Round 3: ENC-FIRST-MAPPED (the line-only encoder takes state from a segment\'s line only when the segment is mapped). Round 4: ENC-DEDUP (the "same original, skip" shortcut compares every per-segment state it records), ENC-OMIT (a tracked field is written as a delta or skipped only after the equality test with the state: no constant digits for an uncompared field), ENCODER-TOTAL (no arithmetic panic in the encoders). Round 6: VLQ-TERMINATED — path-sensitive replay of one loop iteration of the VLQ writer from the loop-head facts: a digit that can be the last one before the writer returns is < 32, a digit followed by another is >= 32. DECODER-WIDTH — the accumulator of the reader is at least 35 bits wide and the overflow guard skips a digit only beyond position 30 (all 7 digits of a 32-bit field are kept).',
         technique='compiler const-evaluation of the codec tables + constant byte-set dataflow into the encoder buffers',
         design_ref='§5 C12'),
     'C15': dict(
